@@ -17,6 +17,9 @@ Proof. intros [->|(v & -> & H)]; cbn; [reflexivity|now rewrite H]. Qed.
 Lemma validate_bad ok a : bad ok a -> validate ok a = None.
 Proof. intros [->|(v & -> & H)]; cbn; [reflexivity|now rewrite H]. Qed.
 
+(** a factor is badly given: an unreadable option, or no option and unreadable metadata *)
+Definition badf (cli meta : arg RNC) : Prop := cli = Invalid \/ (cli = Absent /\ meta = Invalid).
+
 Definition source_available (file_given loc_cli : bool) (loc_meta : arg unit) : Prop :=
   file_given = true \/ loc_cli = true \/ exists u, loc_meta = Given u.
 
@@ -50,18 +53,18 @@ Section Any.
   Qed.
 
   Lemma refuses : bad kexp_ok kexp_cli \/ bad area_ok area_cli \/ bad kexp_ok kexp_meta \/ bad area_ok area_meta \/
-                  red1_cli = Invalid \/ red2_cli = Invalid -> forall s, out <> Runs s.
+                  badf red1_cli red1_meta \/ badf red2_cli red2_meta -> forall s, out <> Runs s.
   Proof.
     intros H s E. destruct (runs_inv s E) as (V1 & V2 & F1 & F2 & V3 & V4).
     destruct H as [H|[H|[H|[H|[H|H]]]]].
     - now apply V1, validate_bad. - now apply V2, validate_bad. - now apply V4, validate_bad. - now apply V3, validate_bad.
-    - apply F1. now rewrite H. - apply F2. now rewrite H.
+    - apply F1. destruct H as [->|[-> ->]]; reflexivity. - apply F2. destruct H as [->|[-> ->]]; reflexivity.
   Qed.
 
   (** with a factor source available the refusal is exit code 65 *)
   Lemma refuses_65 : source_available file_given loc_cli loc_meta ->
     bad kexp_ok kexp_cli \/ bad area_ok area_cli \/ bad kexp_ok kexp_meta \/ bad area_ok area_meta \/
-    red1_cli = Invalid \/ red2_cli = Invalid -> out = Exits EXIT_DATAERR.
+    badf red1_cli red1_meta \/ badf red2_cli red2_meta -> out = Exits EXIT_DATAERR.
   Proof.
     intros Hs H. destruct exit_codes as [[s E]|[E|E]]; [exfalso; exact (refuses H s E)| |exact E].
     exfalso. unfold out, resolve in E.
@@ -109,12 +112,14 @@ Section Any.
 
   (** a result is produced whenever everything given is valid and a factor source is available *)
   Lemma runs_when_valid : good kexp_ok kexp_cli -> good area_ok area_cli -> good kexp_ok kexp_meta -> good area_ok area_meta ->
-    red1_cli <> Invalid -> red2_cli <> Invalid -> source_available file_given loc_cli loc_meta -> exists s, out = Runs s.
+    ~ badf red1_cli red1_meta -> ~ badf red2_cli red2_meta -> source_available file_given loc_cli loc_meta -> exists s, out = Runs s.
   Proof.
     intros G1 G2 G4 G3 N1 N2 Hs. unfold out, resolve.
     rewrite (validate_good _ _ G1), (validate_good _ _ G2).
-    assert (F1 : exists r, resolve_factor red1_cli red1_meta = Some r) by (destruct red1_cli; try congruence; cbn; [destruct red1_meta|]; eauto).
-    assert (F2 : exists r, resolve_factor red2_cli red2_meta = Some r) by (destruct red2_cli; try congruence; cbn; [destruct red2_meta|]; eauto).
+    assert (F1 : exists r, resolve_factor red1_cli red1_meta = Some r).
+    { destruct red1_cli; cbn; [destruct red1_meta; eauto; exfalso; apply N1; right; split; reflexivity|exfalso; apply N1; left; reflexivity|eauto]. }
+    assert (F2 : exists r, resolve_factor red2_cli red2_meta = Some r).
+    { destruct red2_cli; cbn; [destruct red2_meta; eauto; exfalso; apply N2; right; split; reflexivity|exfalso; apply N2; left; reflexivity|eauto]. }
     destruct F1 as [r1 ->], F2 as [r2 ->].
     assert (S : exists src, resolve_source file_given loc_cli loc_meta = inr src).
     { unfold resolve_source. destruct file_given; [eauto|]. destruct loc_cli; [eauto|].
@@ -135,7 +140,7 @@ Theorem C19_precedence : forall kexp_cli area_cli red1_cli red1_meta red2_cli re
 Proof. intros. eapply precedence. eassumption. Qed.
 
 Theorem C19_refuses : forall kexp_cli area_cli red1_cli red1_meta red2_cli red2_meta file_given loc_cli loc_meta area_meta kexp_meta,
-  bad kexp_ok kexp_cli \/ bad area_ok area_cli \/ bad kexp_ok kexp_meta \/ bad area_ok area_meta \/ red1_cli = Invalid \/ red2_cli = Invalid ->
+  bad kexp_ok kexp_cli \/ bad area_ok area_cli \/ bad kexp_ok kexp_meta \/ bad area_ok area_meta \/ badf red1_cli red1_meta \/ badf red2_cli red2_meta ->
   (forall s, resolve kexp_cli area_cli red1_cli red1_meta red2_cli red2_meta file_given loc_cli loc_meta area_meta kexp_meta <> Runs s) /\
   (source_available file_given loc_cli loc_meta ->
    resolve kexp_cli area_cli red1_cli red1_meta red2_cli red2_meta file_given loc_cli loc_meta area_meta kexp_meta = Exits EXIT_DATAERR).
@@ -148,7 +153,7 @@ Proof. intros. apply exit_codes. Qed.
 
 Theorem C19_runs_when_valid : forall kexp_cli area_cli red1_cli red1_meta red2_cli red2_meta file_given loc_cli loc_meta area_meta kexp_meta,
   good kexp_ok kexp_cli -> good area_ok area_cli -> good kexp_ok kexp_meta -> good area_ok area_meta ->
-  red1_cli <> Invalid -> red2_cli <> Invalid -> source_available file_given loc_cli loc_meta ->
+  ~ badf red1_cli red1_meta -> ~ badf red2_cli red2_meta -> source_available file_given loc_cli loc_meta ->
   exists s, resolve kexp_cli area_cli red1_cli red1_meta red2_cli red2_meta file_given loc_cli loc_meta area_meta kexp_meta = Runs s.
 Proof. intros. now apply runs_when_valid. Qed.
 
